@@ -100,10 +100,29 @@ func (s *System) Events() []core.Event {
 type lockedBuf struct {
 	mu sync.Mutex
 	b  bytes.Buffer
+	// stall: when armed, the next Write parks until released (a slow disk / blocked pipe under the
+	// compliance log); parked is closed once a writer is actually waiting
+	armed   bool
+	parked  chan struct{}
+	release chan struct{}
+}
+
+func (l *lockedBuf) arm() {
+	l.mu.Lock()
+	l.armed, l.parked, l.release = true, make(chan struct{}), make(chan struct{})
+	l.mu.Unlock()
 }
 
 func (l *lockedBuf) Write(p []byte) (int, error) {
 	l.mu.Lock()
+	if l.armed {
+		l.armed = false
+		parked, release := l.parked, l.release
+		l.mu.Unlock()
+		close(parked)
+		<-release
+		l.mu.Lock()
+	}
 	defer l.mu.Unlock()
 	return l.b.Write(p)
 }
@@ -143,6 +162,10 @@ type inst struct {
 	calls   map[int]*gcall
 	cur     *gcall // the only gated call currently running (nil: calls run synchronously)
 	closing bool
+	// a compliance-log flush stalled in its first write (records are withheld meanwhile)
+	holdLogs  bool
+	flushDone chan struct{}
+	stalled   bool
 }
 
 func (s *System) New() core.Instance {
@@ -217,6 +240,9 @@ func errStr(err error) string {
 // logs flushes the compliance logger through its real formatting path and projects the
 // records written since the last call.
 func (in *inst) logs() []map[string]any {
+	if in.holdLogs {
+		return []map[string]any{}
+	}
 	// (Flush reallocates its whole buffer even when empty: only flush what holds records)
 	st := in.lg.GetStats()
 	if n, _ := st["buffer_used"].(int); n > 0 {
@@ -273,6 +299,9 @@ func (in *inst) Apply(ev core.Event) map[string]any {
 	op := ev["op"].(string)
 	sub := toInt(ev["sub"])
 	k := toInt(ev["call"])
+	if op == "flush" {
+		return in.slowFlush(ev["phase"].(string))
+	}
 	if k == 0 {
 		r := in.do(op, sub)
 		return map[string]any{"first": true, "done": true, "ok": r.ok, "blk": r.blk, "err": r.err, "logs": in.logs(), "point": ""}
@@ -308,6 +337,71 @@ func (in *inst) Apply(ev core.Event) map[string]any {
 		return map[string]any{"first": first, "done": true, "ok": msg.res.ok, "blk": msg.res.blk, "err": msg.res.err, "logs": in.logs(), "point": ""}
 	}
 	return map[string]any{"first": first, "done": false, "ok": false, "blk": noBlock(), "err": "", "logs": in.logs(), "point": msg.point}
+}
+
+// slowFlush models the logger's background flush hitting a slow sink: "begin" starts Logger.Flush on
+// its own goroutine and lets it park in its first write; calls made until "end" log into the
+// logger's buffer while that flush is still writing. In the contract's vocabulary the flush is a
+// call in flight (first/done), so the log need not reconstruct the table until it has finished.
+func (in *inst) slowFlush(phase string) map[string]any {
+	res := func(first, done bool, logs []map[string]any) map[string]any {
+		return map[string]any{"first": first, "done": done, "ok": true, "blk": noBlock(), "err": "", "logs": logs, "point": ""}
+	}
+	if phase == "hold" { // records pile up in the logger's buffer: the (eventual) flush is in flight from here on
+		if in.holdLogs {
+			return res(false, false, []map[string]any{})
+		}
+		in.holdLogs = true
+		return res(true, false, []map[string]any{})
+	}
+	if phase == "begin" {
+		first := !in.holdLogs
+		in.holdLogs = true
+		if in.flushDone != nil {
+			return res(false, false, []map[string]any{})
+		}
+		in.buf.arm()
+		in.flushDone = make(chan struct{})
+		go func() {
+			in.lg.Flush()
+			in.lg.FlushPortBlocks()
+			close(in.flushDone)
+		}()
+		select {
+		case <-in.buf.parked:
+			in.stalled = true
+		case <-in.flushDone: // nothing was buffered: the flush returned without writing
+			in.stalled = false
+			in.buf.mu.Lock()
+			in.buf.armed = false
+			in.buf.mu.Unlock()
+		case <-time.After(gateTimeout):
+			panic("slow flush neither parked nor returned")
+		}
+		return res(first, false, []map[string]any{})
+	}
+	if !in.holdLogs {
+		return res(false, false, in.logs())
+	}
+	if in.flushDone == nil { // held but never begun
+		in.holdLogs = false
+		return res(false, true, in.logs())
+	}
+	if in.stalled {
+		close(in.buf.release)
+	} else {
+		in.buf.mu.Lock()
+		in.buf.armed = false
+		in.buf.mu.Unlock()
+	}
+	select {
+	case <-in.flushDone:
+	case <-time.After(gateTimeout):
+		panic("stalled flush did not finish after the sink was released")
+	}
+	in.holdLogs = false
+	in.flushDone = nil
+	return res(false, true, in.logs())
 }
 
 func (in *inst) Observe() map[string]any {
